@@ -17,7 +17,8 @@ open PallasVerif PallasVerif.Agent
 structure St where
   agent : Option Agent := none
   cur : String := ""
-  /-- queued peer messages: class, token was not `other`, epoch at which it was queued -/
+  /-- queued peer messages: class, token was `same` (a keep-alive response echoing the outstanding cookie;
+      `other` / `hi` / `top` flip bit 0 / 8 / 15 of it), epoch at which it was queued -/
   pending : List (String × Bool × Nat) := []
   /-- number of keep-alive requests sent through `send_keepalive_request` so far: a response queued with
       token `same` copies the cookie of the latest request *at that moment*, so it passes the client's
@@ -65,7 +66,7 @@ def step (st : St) : List String → St × String
     | none => (st, "bad-op")
   | ["peer", m, k] =>
     match st.agent with
-    | some a => if a.msgs.contains m then ({ st with pending := st.pending ++ [(m, k != "other", st.epoch)] }, "ok") else (st, "bad-op")
+    | some a => if a.msgs.contains m then ({ st with pending := st.pending ++ [(m, k == "same", st.epoch)] }, "ok") else (st, "bad-op")
     | none => (st, "bad-op")
   | ["send", m, _] =>
     match st.agent with
